@@ -98,6 +98,7 @@ func c14lineEntries() []c14entry {
 		{"Info in a file whose name holds quotation marks", "native", func(l slog.Logger, _ *stdslog.Logger, _ *stdlog.Logger, c context.Context) []site { return c14siteQuotedFile(l) }, 0},
 		{"Info in a file whose name holds backslashes", "native", func(l slog.Logger, _ *stdslog.Logger, _ *stdlog.Logger, c context.Context) []site { return c14siteBackslashFile(l) }, 0},
 		{"Info in a file whose name holds letters outside ASCII", "native", func(l slog.Logger, _ *stdslog.Logger, _ *stdlog.Logger, c context.Context) []site { return c14siteTabFile(l) }, 0},
+		{"Info with an attribute named caller", "native", func(l slog.Logger, _ *stdslog.Logger, _ *stdlog.Logger, c context.Context) []site { s := here(); l.Info(cm, "caller", "the-value-of-an-attribute", "a", 1); return s }, 0},
 	}
 }
 
